@@ -13,7 +13,7 @@ FS_CLASSES = ['content', 'size', 'delete', 'retype', 'stray', 'touch', 'stray-lo
 MAN_CLASSES = ['m-digest', 'm-size', 'm-drop', 'm-ghost', 'm-conflict',
                'm-disjoint-wrong', 'm-unsupported', 'm-chain', 'm-dup-ignore',
                'm-compatible-dup', 'm-dup-manifest-entry', 'm-manifest-dup-wrong',
-               'm-dist-twin']
+               'm-dist-twin', 'm-digest-shared', 'm-digest-shared']
 ODD_CLASSES = ['file-over-dir', 'm-misc-dup', 'm-ignore-file', 'm-entry-for-dir',
                'm-manifest-data-twin']
 UNREG_CLASSES = ['unreg-valid', 'unreg-stale', 'unreg-invalid', 'unreg-badcompressed']
@@ -284,15 +284,38 @@ def mutate(rng, root, layout, info, klass):
                    else [rng.choice(mtext.supported_hashes())])
         layout['mans'][m]['entries'].append(dup)
         rec['path'] = mtext.full_path(os.path.dirname(m), e)
+    elif klass == 'm-digest-shared':
+        # a file listed by several agreeing entries with overlapping hash sets: a hash
+        # they share gets the same wrong value in all of them (the entries still agree
+        # with each other, none of them with the file)
+        cands = []
+        for f in files:
+            fes = _file_entries(layout, info, f)
+            if len(fes) >= 2:
+                shared = set(fes[0][1]['sums'])
+                for _, e in fes[1:]:
+                    shared &= set(e['sums'])
+                if shared:
+                    cands.append((f, fes, sorted(shared)))
+        if not cands:
+            return None
+        f, fes, shared = rng.choice(cands)
+        h = rng.choice(shared)
+        v = fes[0][1]['sums'][h]
+        i = rng.randrange(len(v))
+        bad = v[:i] + ('0' if v[i] != '0' else '1') + v[i + 1:]
+        for _, e in fes:
+            e['sums'][h] = bad
+        rec['path'] = f
     elif klass == 'm-dist-twin':
         # two DIST entries with one name but different size / digests in one Manifest
         m = rng.choice(sorted(layout['mans']))
         ents = layout['mans'][m]['entries']
         name = 'twin-%d.tar.gz' % rng.randrange(100)
-        for k in range(2):
+        for k in range(rng.choice([2, 2, 3])):
             ents.insert(rng.randrange(len(ents) + 1),
-                        {'tag': 'DIST', 'path': name, 'size': 100 + k,
-                         'sums': {'SHA256': ('%02x' % (17 * (k + 1))) * 32}})
+                        {'tag': 'DIST', 'path': name, 'size': 100 + rng.randrange(3),
+                         'sums': {'SHA256': '%064x' % rng.getrandbits(256)}})
         rec['path'] = name
     elif klass == 'm-manifest-data-twin':
         # a sub-Manifest additionally listed by a (correct) DATA/MISC entry next to its
